@@ -43,6 +43,7 @@ BUDGET = {
 WF = r'''
 import json, os
 from gwf import Workflow, AnonymousTarget
+from helpers19 import OUT_SUFFIX   # a module next to the workflow file (like the templates.py of `gwf init`)
 HERE = os.path.dirname(os.path.realpath(__file__))
 D = json.load(open(os.path.join(HERE, "wf19.json")))
 kw = {}
@@ -70,7 +71,7 @@ class Stepper:
 for t in D["targets"]:
     how = t["how"]
     if how == "target":
-        gwf.target(t["name"], inputs=t["inputs"], outputs=t["outputs"]) << "echo direct\n"
+        gwf.target(t["name"], inputs=t["inputs"], outputs=[o + OUT_SUFFIX for o in t["outputs"]]) << "echo direct\n"
     elif how == "template":
         gwf.target_from_template(t["name"], tpl(t["inputs"], t["outputs"], t.get("twd")))
     elif how == "map":
@@ -166,6 +167,19 @@ def _shared(draw):
             "order": draw(st.permutations([0, 1, 2])), "via_map": draw(st.booleans())}
 
 
+PUNCT = ["\n", " ", "\t", "-", "/", "$", ";", "*", "\x00", "\r", "\x0b", "\x1f", "'", '"', "(", ")", ",", ":", "+", "=", "&",
+         "|", "<", ">", "?", "!", "@", "#", "%", "^", "~", "`", "[", "]", "{", "}", "\\", "\x7f", "\x85", "\u00a0", "\u2028"]
+
+
+def enumerate_cases(tier):
+    """Every separator / control character at the start, in the middle and at the end of an otherwise valid name."""
+    for c in PUNCT:
+        for name in (c + "Ab", "A" + c + "b", "Ab" + c):
+            yield {"kind": "name", "expect": "reject", "name": name}
+    for name in ("A", "_", "_a1", "Ab_9", "Z" * 40, "a1b2"):
+        yield {"kind": "name", "expect": "accept", "name": name}
+
+
 def strategy(tier):
     return st.one_of(_where(), _where(), _name(), _path(), st.just({"kind": "dupname"}), _mapcase(), _shared())
 
@@ -225,6 +239,12 @@ def run_where(case):
         p.desc = desc
         with open(os.path.join(proj_dir, "workflow.py"), "w") as f:
             f.write(WF)
+        with open(os.path.join(proj_dir, "helpers19.py"), "w") as f:
+            f.write("OUT_SUFFIX = ''\n")
+        # modules of the same name in the directories gwf is invoked from must not shadow the workflow's own
+        for d in (os.path.join(proj_dir, "nested", "deeper"), other):
+            with open(os.path.join(d, "helpers19.py"), "w") as f:
+                f.write("OUT_SUFFIX = '.decoy'\n")
         with open(os.path.join(proj_dir, "wf19.json"), "w") as f:
             json.dump({"explicit_wd": case["explicit_wd"], "targets": case["targets"]}, f)
         with open(os.path.join(proj_dir, ".gwfconf.json"), "w") as f:
@@ -255,11 +275,12 @@ def run_where(case):
         results = {}
         for tag, cwd, pre in invocations:
             pre = ["-b", "slurm"] + pre  # never fall back to guessing a backend (a wrong workflow file has no config)
-            before = set(os.listdir(cwd))
-            ri = p.gwf(pre + ["info"], cwd=cwd)
-            rs = p.gwf(pre + ["status"], cwd=cwd)
-            rc = p.gwf(pre + ["config", "set", "probe_" + tag.replace("-", "_"), "1"], cwd=cwd)
-            after = set(os.listdir(cwd))
+            before = set(os.listdir(cwd)) | {"__pycache__"}
+            # as with `python -m` / `python -c`, the invoking directory is on the module search path
+            ri = p.gwf(pre + ["info"], cwd=cwd, syspath0=cwd, purge_root=base)
+            rs = p.gwf(pre + ["status"], cwd=cwd, syspath0=cwd, purge_root=base)
+            rc = p.gwf(pre + ["config", "set", "probe_" + tag.replace("-", "_"), "1"], cwd=cwd, syspath0=cwd, purge_root=base)
+            after = set(os.listdir(cwd)) | {"__pycache__"}
             if cwd != proj_dir and after != before:
                 viols.append(Violation({"kind": "created-in-invoking-dir", "from": tag},
                                        f"invoking from {tag} created {sorted(after - before)} there"))
